@@ -26,6 +26,7 @@ import GoBT.Props.C04
 import GoBT.Interp.SigDigest
 import GoBT.Props.C14
 import GoBT.Script.WriteReviewLib
+import GoBT.Script.SliceHeap
 namespace GoBT.C20
 open GoBT GoBT.Fee GoBT.Ord GoBT.Sighash
 
@@ -453,5 +454,32 @@ example : (acceptListing samplePstx sampleOrd sampleUtxos p2pkhT p2pkhT p2pkhT s
     slice it was handed — a previous-output script, a caller's hash, a destination's old buffer — adds a row with a
     `param:` / `field:` / `deref:` origin and breaks this obligation. -/
 theorem lib_writes_only_fresh_buffers : GoBT.Script.WriteReviewLib.writesOkFor "C20" = true := by decide +kernel
+
+/-- `Tx.Inscribe` on Go's slice semantics (GoBT/Script/SliceHeap.lean: slices are windows into backing arrays, `append`
+    writes into spare capacity when the result fits).  For every heap and every well-formed prefix slice — whatever its
+    spare capacity and whatever else lives in its array — copying the prefix and then making the run of appends that
+    `Inscribe` makes yields a script that reads exactly as the value model's `inscriptionScript`, and every slice the
+    caller held before (the prefix's own array included: the script a parsed prefix was cut from) reads as before.
+    This is the statement finding F-C20-04 violated (`SliceHeap.header_copy_clobbers` is the witness for the
+    header-only copy); the regenerated obligation `lib_writes_only_fresh_buffers` checks that the code still copies. -/
+theorem inscribe_leaves_caller_memory_alone (h : SliceHeap.Heap UInt8) (p : SliceHeap.Slice) (wf : p.WF h)
+    (ct data s : Bytes) (hs : Ord.inscriptionScript (h.read p) ct data = some s) :
+    ∃ run : List Bytes,
+      (SliceHeap.copyThenAppends h p run).1.read (SliceHeap.copyThenAppends h p run).2 = s ∧
+      ∀ t : SliceHeap.Slice, t.WF h → (SliceHeap.copyThenAppends h p run).1.read t = h.read t := by
+  unfold Ord.inscriptionScript at hs
+  cases ho : Ord.pushData [0x6f, 0x72, 0x64] with
+  | none => simp [ho] at hs
+  | some o =>
+    cases hc : Ord.pushData ct with
+    | none => simp [ho, hc] at hs
+    | some c =>
+      cases hd : Ord.pushData data with
+      | none => simp [ho, hc, hd] at hs
+      | some d =>
+        simp [ho, hc, hd] at hs
+        refine ⟨[[0x00, 0x63], o, [0x51], c, [0x00], d, [0x68]], ?_, fun t wt => SliceHeap.copyThenAppends_preserves_read h p t _ wf wt⟩
+        rw [SliceHeap.copyThenAppends_read h p _ wf, ← hs]
+        simp [List.append_assoc]
 
 end GoBT.C20
